@@ -46,7 +46,8 @@ PROBES = [
     ("typedNilFixed", "typednil", "package main\n\n" + ERRS + "var called bool\n\nfunc F() (int, error) { called = true; return 1, nil }\n\n"
      "func main() {\n\tvar e0 Errs\n\tv, err := deriveJoin(F, e0)\n\tif called && v == 1 && err == nil {\n\t\tprintln(\"ok\")\n\t}\n}\n"),
 ]
-PROBE_MODE = {"errRecvFixed": "refuse", "typedNilFixed": "run"}
+# the repairs of these three are refusals (exit 1); a generator that serves the call correctly would count as well
+PROBE_MODE = {"errTypeFixed": "refuse-or-build", "errRecvFixed": "refuse", "typedNilFixed": "refuse-or-run"}
 
 # informational probes (not model variants): defects outside the statements of C15/C16 that live in the same plugins
 INFO_PROBES = [
@@ -62,9 +63,9 @@ WHY_TEXT = {
     "shadow": "a parameter named like the generator's own binder (`f`, `err`) captures it: the wrapper does not compile",
     "dup": "uncurry merges outer and inner parameter lists whose names clash (also via its own innerParam_<i>/param_<i> renaming): duplicate parameter, does not compile",
     "void": "a wrapped function WITHOUT results is forwarded as `return f(...)` by curry, uncurry, flip and apply: `f(...) (no value) used as value`, does not compile",
-    "errtype": "a custom error type (named type with Error() string) as the last result of a stage is accepted, but the helper's parameter is printed with the predeclared error: the call does not compile (compose, traverse, fmap and join error forms)",
-    "errrecv": "derive.IsError accepts a type whose Error method has a pointer receiver although it is used by value (does not implement error): exit 0, package does not compile",
-    "typednil": "deriveJoin(f, e) with a nil value e of a custom error type: the helper receives a non-nil error, does not call f and returns zero values with a non-nil error",
+    "errtype": "(F50) a custom error type (named type with Error() string) as the last result of a stage is accepted, but the helper's parameter is printed with the predeclared error: the call does not compile (compose, traverse, fmap and join error forms)",
+    "errrecv": "(F51) derive.IsError accepts a type whose Error method has a pointer receiver although it is used by value (does not implement error): exit 0, package does not compile",
+    "typednil": "(F52) deriveJoin(f, e) with a nil value e of a custom error type: the helper receives a non-nil error, does not call f and returns zero values with a non-nil error",
     "zero": "derive.Zero prints `nil` as the zero value of a named basic type, struct or array: the helper does not compile",
     "emptylhs": "compose prints `, err0 :=` / `return , err0` for a stage without non-error results: the helper does not compile",
 }
@@ -86,9 +87,11 @@ def probe_flags(binp, cdir):
         rc, err, to = common.run_goderive(binp, pdir, ["./w%d" % i], timeout=60)
         ok = False
         mode = PROBE_MODE.get(flag, "build")
-        if mode == "refuse":
-            ok = rc == 1
-        elif rc == 0 and mode == "run":
+        if mode.startswith("refuse") and rc == 1:
+            ok = True
+        elif mode == "refuse":
+            ok = False
+        elif rc == 0 and mode.endswith("run"):
             p = common.sh(["go", "run", "./w%d" % i], cwd=pdir, timeout=300)
             ok = p.returncode == 0 and "ok" in p.stderr + p.stdout
             err = p.stderr
@@ -386,7 +389,7 @@ APPLICABLE = {
          ["compose_compiles_partial", "zero_ok", "zero_witnesses", "compose_lhs_witness", "fmap_join_zero_witness"]),
         (("unnamedFixed", "shadowFixed"), ["toerror_compiles_partial (side condition empty)"],
          ["toerror_compiles_partial", "toerror_witnesses"]),
-        (("errTypeFixed", "errRecvFixed", "typedNilFixed"), ["isError_sound_partial (side condition empty)"],
+        (("errTypeFixed", "errRecvFixed", "typedNilFixed"), ["isError_fixed", "isError_sound_partial (side condition empty)"],
          ["isError_sound_partial", "isError_witnesses"]),
     ],
 }
